@@ -14,7 +14,7 @@ def main() -> int:
     props = [p.upper() for p in sys.argv[2:]] or [f'C{i:02d}' for i in range(1, 21)]
     tmp = tempfile.mkdtemp(prefix='bubus-eval-')
     try:
-        subprocess.run(['git', '-C', '/repo', 'worktree', 'add', '-q', '--detach', os.path.join(tmp, 'wt'), 'HEAD'], check=True)
+        subprocess.run(['git', '-C', '/repo', 'worktree', 'add', '-q', '--detach', os.path.join(tmp, 'wt'), os.environ.get('SEED_BASE', 'HEAD')], check=True)
         wt = os.path.join(tmp, 'wt')
         r = subprocess.run(['git', '-C', wt, 'apply', '--whitespace=nowarn', patch], capture_output=True, text=True)
         if r.returncode != 0:
